@@ -5,7 +5,7 @@ import os
 ROOT = os.path.dirname(os.path.dirname(os.path.abspath(__file__)))
 
 HOOK_COMMITS = ["7a8ba4f"]
-FIX_COMMITS = ["5737839", "2d5e69c", "bf43ee9", "0b45cfb", "823a22a", "a0bae4e", "a7c4305", "a9e432f", "5be6b47"]
+FIX_COMMITS = ["5737839", "2d5e69c", "bf43ee9", "0b45cfb", "823a22a", "a0bae4e", "a7c4305", "679711e", "6687037", "9f0056a", "77c6db8", "a9e432f", "5be6b47"]
 
 CHECKS = {
     "C01": dict(
@@ -160,6 +160,17 @@ CHECKS["C12"] = dict(
          "images; the library must evaluate spec-mixed circuits as CQ maps.",
     note="Trusted: TLC, float comparison, adapter from abstract boxes to discopy boxes.",
     ref="5/C12", technique="TLA+ exact-arithmetic spec + TLC as reference evaluator, replay of model circuits")
+
+CHECKS["C14"] = dict(
+    text="Param.tla models parameters as affine forms over two symbols and substitution steps as sequences of pairs; "
+         "TLC checks on all histories in bounds that substitution touches nothing but the forms and reports free "
+         "symbols correctly. TLC behaviours (build a parametrised pure/mixed circuit, then substitute) are replayed "
+         "with the real subs/lambdify; TLC judges the projected result (kinds, flags, mixedness, substituted forms, "
+         "free symbols before and after) and computes the exact arrays of closed results, against which "
+         "substitute-then-evaluate, evaluate-then-substitute (Tensor.subs and a harness-side sympy substitution) "
+         "and lambdify are compared; lambdify(...)(...) must equal the substituted diagram.",
+    note="Trusted: TLC, float comparison, sympy for extracting affine coefficients. ZX / tensor-box parameters: not yet.",
+    ref="5/C14", technique="TLA+ spec + TLC behaviours (histories of substitutions), trace validation, exact reference values")
 
 NOT_YET = {}
 
